@@ -8,7 +8,7 @@ TRC = "pynguin.instrumentation.tracer"
 # ==== bounded stand-in (H-prog): the interpreter's own BRANCH / LINE events against the tracer's report ========================
 from pyvc.bounded import Part, guarded  # noqa: E402
 
-_METRICS = {"B": ("BRANCH",), "L": ("LINE",), "BL": ("BRANCH", "LINE")}
+_METRICS = {"S": (), "B": ("BRANCH",), "L": ("LINE",), "BL": ("BRANCH", "LINE")}   # S: dynamic seeding only
 
 
 def run_hprog(part, tier, seed, judge, metric_keys, source=None, vectors=None, tag="hprog"):
